@@ -636,7 +636,8 @@ Lemma decorate_ok_shape : forall st s p st',
   (forall k, In k keys -> alookup key_eqb k (s_decorators (get_scope st s)) = None).
 Proof.
   intros st s p st' Hs H. unfold decorate in H. cbv zeta.
-  destruct (existsb _ _) eqn:Eex; [discriminate|]. inversion H; subst st'; clear H.
+  destruct (negb _ || existsb _ _) eqn:Eex; [discriminate|]. inversion H; subst st'; clear H.
+  apply orb_false_iff in Eex. destruct Eex as [_ Eex].
   set (d := length (st_decs st)).
   set (dn := mkDNode (di_fn p) (di_sig p) s DReady (di_cb p)).
   set (st1 := set_decs st (st_decs st ++ [dn])).
